@@ -289,6 +289,8 @@ def generate(seed, tier, idx=0):
                      else rng.choice([0, 1e-9, 2e-10]) if nano else (rng.choice([0, 1e-6, 1e-7, 2.0]) if fine else rng.choice([0, 2, 9])))
             ops.append(["end", t])
     case = {"kind": kind, "variant": variant, "ops": ops, "quantities": rng.random() < 0.1}
+    if rng.random() < 0.15:
+        case["bound"] = True       # observations arrive through a bound method taken at the start
     if kind == "timestamp" and bigint:
         # exact int timestamps only make sense where nothing converts them: the plain
         # tally fed plain ints
@@ -366,6 +368,9 @@ def run(case):
             st.add_listener(getattr(StatEvents, k), sub)
     obs = []          # weighted: (w, v); timestamp: (t, v)
     closed_at = None
+    # a caller (or an event scheduled in advance) may hold the bound method from the
+    # start: reg = tally.register ... reg(t, v) much later
+    held = st.register if case.get("bound") else None
 
     def check(step):
         if kind == "weighted":
@@ -400,7 +405,7 @@ def run(case):
                 if i % 2 == 0:
                     a2 = Duration(float(a2), "s")
             try:
-                st.register(a1, a2)
+                (held if held is not None else st.register)(a1, a2)
             except Exception as e:
                 return ("register-raised", "op #%d register(%r, %r) raised %s: %s "
                         "(previous observations %s)" % (i, op[1], op[2], type(e).__name__,
